@@ -499,7 +499,7 @@ Qed.
 Lemma deactivate_ok : forall s j x,
   Inv s -> nth_error (v_slots s) j = Some x -> c_used x = true ->
   Inv (deactivate j s) /\ benign s (deactivate j s) /\ shape_eq s (deactivate j s) /\
-  nth_error (v_slots (deactivate j s)) j = Some (set_st 2 x).
+  nth_error (v_slots (deactivate j s)) j = Some (if c_st x =? 1 then set_st 2 x else x).
 Proof.
   intros s j x I N UX. unfold deactivate. rewrite N, UX. cbn [andb].
   pose proof (slot_ok_of s j x I N) as [OK _]. destruct (OK UX) as (RNG & PH & S1 & S2).
@@ -512,13 +512,8 @@ Proof.
       split; [exact RNG|]. split; [left; reflexivity|]. split; [intros H; discriminate | intros _ H; discriminate]. }
     split; [exact I'|]. split; [exact B'|]. split; [|simp_srv; exact NTH].
     unfold shape_eq; simp_srv. apply shape_upd_st.
-  - apply Z.eqb_neq in E.
-    destruct (step_upd_quiet s j (set_st 2) I) as [I' B'].
-    { intros y Ny. assert (y = x) by congruence; subst y. split; [reflexivity|]. split; [reflexivity|].
-      intros _. split; cbn [c_used c_sid c_st c_run set_st]; [intros _ | congruence].
-      split; [exact RNG|]. split; [exact PH|]. split; [intros H; discriminate | intros R P; exfalso; apply E; auto]. }
-    split; [exact I'|]. split; [exact B'|]. split; [|simp_srv; exact NTH].
-    unfold shape_eq; simp_srv. apply shape_upd_st.
+  - (* not started: nothing changes *)
+    split; [exact I|]. split; [apply benign_refl|]. split; [reflexivity | exact N].
 Qed.
 
 (* MasterConnection_activate on a used, running slot *)
@@ -609,14 +604,15 @@ Lemma handle_msg_ok : forall s i x m,
   Inv (handle_msg i (c_sid x) m s) /\ benign s (handle_msg i (c_sid x) m s).
 Proof.
   intros s i x m I N UX RX. destruct m; cbn [handle_msg].
-  - destruct (activate_ok s i x I N UX RX) as (I1 & B1 & _).
-    destruct (after_write_ok _ i (c_sid x) I1) as (I2 & B2). split; [exact I2 | eapply benign_trans; eauto].
+  - destruct (mem (c_sid x) (v_wfail s)); [apply set_run_false_ok; exact I|].
+    destruct (activate_ok s i x I N UX RX) as (I1 & B1 & _). split; assumption.
   - destruct (deactivate_ok s i x I N UX) as (I1 & B1 & _ & N1).
     destruct (step_upd_quiet (deactivate i s) i (set_st 0) I1) as (I2 & B2).
-    { intros y Ny. assert (y = set_st 2 x) by congruence; subst y. split; [reflexivity|]. split; [reflexivity|].
-      intros [A B]. split; cbn [c_used c_sid c_st c_run set_st] in *; [|intros _; reflexivity].
-      intros U. destruct (A U) as (R & P & S1 & S2). split; [exact R|]. split; [exact P|].
-      split; [intros H; discriminate | intros Hr Hp; specialize (S2 Hr Hp); discriminate]. }
+    { intros y Ny. assert (y = if c_st x =? 1 then set_st 2 x else x) by congruence; subst y.
+      destruct (c_st x =? 1) eqn:E1; (split; [reflexivity|]; split; [reflexivity|]);
+      intros [A B]; (split; cbn [c_used c_sid c_st c_run set_st] in *; [|intros _; reflexivity]);
+      intros U; destruct (A U) as (R & P & S1 & S2); (split; [exact R|]); (split; [exact P|]);
+      (split; [intros H; discriminate | intros Hr Hp; specialize (S2 Hr Hp); first [discriminate | apply Z.eqb_neq in E1; exfalso; apply E1; exact S2]]). }
     destruct (after_write_ok _ i (c_sid x) I2) as (I3 & B3).
     split; [exact I3 | eapply benign_trans; [exact B1 | eapply benign_trans; eauto]].
   - apply after_write_ok; exact I.
@@ -1225,12 +1221,14 @@ Proof.
   destruct (negb (c_st x =? 1)); simp_srv; rewrite nth_error_upd, Nat.eqb_refl, N; reflexivity.
 Qed.
 
+(* (the confirmation is written first; when that write fails the connection ends without having been activated) *)
 Theorem startdt_handled : forall s i x, Inv s -> nth_error (v_slots s) i = Some x -> c_used x = true -> c_run x = true ->
+  mem (c_sid x) (v_wfail s) = false ->
   let s' := handle_msg i (c_sid x) MStart s in
   exists x', nth_error (v_slots s') i = Some x' /\ c_st x' = 1 /\ c_sid x' = c_sid x /\
              phase_of (v_log s') (c_sid x) = PStarted.
 Proof.
-  intros s i x I N UX RX s'.
+  intros s i x I N UX RX WF s'.
   destruct (handle_msg_ok s i x MStart I N UX RX) as (I' & _). fold s' in I'.
   assert (A : exists x1, nth_error (v_slots (activate i s)) i = Some (set_st 1 x1) /\ shape x1 = shape x).
   { unfold activate. rewrite N. set (idx := seq 0 (length (v_slots s))).
@@ -1242,9 +1240,8 @@ Proof.
     - apply G. apply (deact_fold_ok i (Some (c_grp x)) idx s I). }
   destruct A as (x1 & N1 & SH). apply shape_fields in SH. destruct SH as (SU & SR & SS & _).
   assert (B : exists x', nth_error (v_slots s') i = Some x' /\ c_st x' = 1 /\ c_sid x' = c_sid x /\ c_used x' = true).
-  { unfold s'. cbn [handle_msg]. unfold after_write. destruct (mem (c_sid x) (v_wfail (activate i s))); simp_srv.
-    - rewrite nth_error_upd, Nat.eqb_refl, N1. eexists; split; [reflexivity|]. cbn. rewrite SS, SU. auto.
-    - rewrite N1. eexists; split; [reflexivity|]. cbn. rewrite SS, SU. auto. }
+  { unfold s'. cbn [handle_msg]. rewrite WF.
+    rewrite N1. eexists; split; [reflexivity|]. cbn. rewrite SS, SU. auto. }
   destruct B as (x' & N' & ST & SID & U'). exists x'. split; [exact N'|]. split; [exact ST|]. split; [exact SID|].
   pose proof (slot_ok_of s' i x' I' N') as [OK _]. destruct (OK U') as (_ & _ & S1 & _). rewrite <- SID. apply S1. exact ST.
 Qed.
@@ -1260,9 +1257,10 @@ Proof.
   destruct (deactivate_ok s i x I N UX) as (_ & B1 & _ & N1).
   assert (W : mem (c_sid x) (v_wfail (upd_slot i (set_st 0) (deactivate i s))) = false).
   { simp_srv. destruct (bn_cfg _ _ B1) as (_ & _ & _ & _ & _ & _ & _ & E & _). rewrite E. exact WF. }
-  assert (N' : nth_error (v_slots s') i = Some (set_st 0 (set_st 2 x))).
-  { unfold s'. cbn [handle_msg]. unfold after_write. rewrite W. simp_srv. rewrite nth_error_upd, Nat.eqb_refl, N1. reflexivity. }
-  exists (set_st 0 (set_st 2 x)). split; [exact N'|]. split; [reflexivity|]. split; [reflexivity|].
+  assert (N' : nth_error (v_slots s') i = Some (set_st 0 x)).
+  { unfold s'. cbn [handle_msg]. unfold after_write. rewrite W. simp_srv. rewrite nth_error_upd, Nat.eqb_refl, N1.
+    destruct (c_st x =? 1); reflexivity. }
+  exists (set_st 0 x). split; [exact N'|]. split; [reflexivity|]. split; [reflexivity|].
   pose proof (slot_ok_of s' i _ I' N') as [OK _]. cbn [c_used c_sid c_st c_run set_st] in OK.
   destruct (OK UX) as (_ & P & _ & S2). destruct P as [P | P]; [exact P|]. specialize (S2 RX P). discriminate.
 Qed.
